@@ -272,7 +272,7 @@ func (s *shape) referrers(n string) []*node {
 }
 
 var shapeNames = []string{"img", "dup", "idx2", "nested", "art", "artidx", "bentry", "docker", "schema1",
-	"ext", "empty", "inline", "dtag", "loop", "diamond", "diamond2", "big", "xref"}
+	"ext", "empty", "inline", "dtag", "loop", "diamond", "diamond2", "artshare", "big", "xref"}
 
 func buildShape(name string) *shape {
 	s := newShape(name)
@@ -366,6 +366,12 @@ func buildShape(name string) *shape {
 		s.addDTag(m, sg, ".sig")
 		s.addDTag(sg, m, ".att")
 		s.Root = "M"
+	case "artshare": // an artifact and its referrer sharing the empty config blob {} (the OCI guidance for artifacts)
+		e := s.rawBlob("E", []byte("{}"))
+		la, lr := s.blob("LA", 120), s.blob("LR", 70)
+		a := s.image("A", false, lref{e, dopt{mt: mtOCIEmpty}}, []lref{{la, dopt{mt: atSBOM}}}, nil, atSBOM)
+		s.image("R", false, lref{e, dopt{mt: mtOCIEmpty}}, []lref{{lr, dopt{mt: atSig}}}, a, atSig)
+		s.Root = "A"
 	case "diamond": // one platform image under two different parent indexes: T -> IA -> {SH, OA}, T -> IB -> {SH, OB}
 		l, la, lb := s.blob("L", 140), s.blob("LA", 90), s.blob("LB", 80)
 		cs, ca, cb := s.config("CS", "amd64"), s.config("CA", "arm64"), s.config("CB", "arm")
